@@ -39,6 +39,7 @@ var rewrites = []rewrite{
 	{"handlers/memcached/batched/conn.go", map[string]string{"net": modPath + "/verifshim/vnet", "math/rand": modPath + "/verifshim/vrand"}},
 	{"handlers/memcached/batched/handler.go", map[string]string{"math/rand": modPath + "/verifshim/vrand"}},
 	{"handlers/memcached/batched/relay.go", map[string]string{"math/rand": modPath + "/verifshim/vrand"}},
+	{"handlers/memcached/cluster/handler.go", map[string]string{"net": modPath + "/verifshim/vnet"}},
 	{"handlers/memcached/batched/types.go", map[string]string{"crypto/rand": modPath + "/verifshim/vcrand"}},
 }
 
